@@ -2,7 +2,7 @@
 Line-protocol driver over M6 (`GenVal`, `Gen`): properties C09, C10, C11.  One request per
 line on stdin, one answer per line on stdout.  Client: harness/gencorr.py.
 
-  gen T|F <fuel> <want> <pred> (<raw>*)   ->  <status> (<val>*) ((<kind> <lo> <hi>)*)
+  gen T|F <fuel> <want> <pred> (<raw>*)   ->  <status> (<val>*) ((<kind> <lo> <hi>)*)      raw = n | (r n count)
         status = more | stopped | starved | error:<Err> | unsupported
         the first `want` results of successive next() calls (each with `fuel`), the values
         yielded and the requests made to the random source, in order
@@ -140,6 +140,13 @@ def showRun (r : Run) : String :=
 
 end WireG
 
+/-- Tape entries: an integer, or `(r x n)` = `n` copies of `x` (run-length form for long tapes). -/
+def rawsOf (xs : List Sexp) : Option (List Int) := do
+  let parts ← xs.mapM fun x => match x with
+    | .list [.atom "r", v, n] => do some (List.replicate (← Wire.natAtom? n) (← Wire.intAtom? v))
+    | x => do some [← Wire.intAtom? x]
+  some parts.flatten
+
 open WireG in
 def handle (line : String) : String :=
   match Sexp.parseAll line with
@@ -148,7 +155,7 @@ def handle (line : String) : String :=
   | some (.atom cmd :: args) =>
     match cmd, args with
     | "gen", [.atom mode, f, w, p, .list raws] =>
-      match Wire.natAtom? f, Wire.natAtom? w, toPred p, Wire.ints? raws with
+      match Wire.natAtom? f, Wire.natAtom? w, toPred p, rawsOf raws with
       | some fuel, some want, some p, some raws =>
         let g? : Option G := if mode == "T" then some (genTrue p) else genFalse p
         match g? with
